@@ -79,7 +79,8 @@ Record conn := {
   (* tapes *)
   k_keys : list bytes;                  (* masking keys, one per frame built *)
   k_wfaults : list wres;                (* outcome of each sendall, in order; WOk when exhausted *)
-  k_ztape : list (option bytes);        (* result of each Deflate.decompress; None = zlib error *)
+  k_ztape : list (option (bytes * bool)); (* result of each Deflate.decompress; None = zlib error; the flag: the peer ended
+                                           its DEFLATE stream in this message (a block with BFINAL set, RFC 7692 7.2.3.4) *)
   k_ctape : list bytes;                 (* result of each Deflate.compress *)
   k_zin : N; k_zout : N;                (* how many times each zlib context was re-created *)
   k_with : bool;                        (* the application left a `with ws:` block: __exit__ closes the session *)
@@ -294,7 +295,10 @@ Section Run.
                     | r :: rs => (r, c1 <| k_ztape := rs |>)
                     | [] => (None, c1) end in
     match r with
-    | Some out => ((if d_reset d then c2 <| k_zin ::= N.succ |> else c2), Some out)
+    | Some (out, ended) =>
+        (* a stream that has ended is replaced at once; then the no_context_takeover reset *)
+        let c3 := if ended then c2 <| k_zin ::= N.succ |> else c2 in
+        ((if d_reset d then c3 <| k_zin ::= N.succ |> else c3), Some out)
     | None => (c2, None)
     end.
 
@@ -465,7 +469,7 @@ Section Run.
         end
     end.
 
-  Definition init (keys : list bytes) (wfaults : list wres) (ztape : list (option bytes)) (ctape : list bytes) : conn :=
+  Definition init (keys : list bytes) (wfaults : list wres) (ztape : list (option (bytes * bool))) (ctape : list bytes) : conn :=
     {| k_ps := fp_init; k_frames := []; k_closing := false; k_closed := false; k_sent_close_time := None;
        k_deflate := None; k_sock := false; k_ready := false; k_poll_start := None; k_next_ping := 0%Z;
        k_last_pong := 0%Z; k_start := None; k_now := 0%Z; k_keys := keys; k_wfaults := wfaults;
